@@ -151,6 +151,24 @@ def body(data, hist):
     cmd = pick(('@robot reset', '@robot reset', '@robot force_reset',
                 '/reset'), 'cmd')
     hist.apply({'op': 'comment', 'pr': A, 'user': AUTHOR, 'text': cmd})
+    if others and data.draw(st.integers(0, 2), label='race_w') == 0:
+        # while the reset runs, the author of another pull request publishes
+        # a hand-made integration branch: it is not this pull request's
+        ev = {'op': 'pr_event', 'pr': A}
+        info = hist.dry_run(ev)
+        from vf.checks.c08 import NET_RE
+        other_ = pick(others, 'rw_pr')
+        for k in range(len(info['pushes']) if info else 0):
+            hist.apply({'op': 'placed', 'job': ev, 'push': k, 'action': {
+                'kind': 'new_w', 'pr': other_}})
+        # ... and before each command that asks the remote what exists
+        for ci in [ci for ci, c in enumerate(info['cmds'] if info else [])
+                   if NET_RE.match(c)][-6:]:
+            hist.apply({'op': 'placed', 'job': ev, 'cmd': ci, 'action': {
+                'kind': 'new_w', 'pr': other_}})
+        hist.flags.add('c15_reset_raced_by_hand_made_w')
+        if hist.violations:
+            return
     hist.apply({'op': 'pr_event', 'pr': A})
     if hist.violations:
         return
@@ -184,7 +202,8 @@ def classes(h):
 def shard(ctx, i, acc):
     n = 6 if ctx['tier'] == 'quick' else 80
     explore(ctx, i, acc, monitors, n, nontrivial=nontrivial, classes=classes,
-            body=body, params_kw={'hotfix': False, 'extra_settings': {
+            body=body, inject=True,
+            params_kw={'hotfix': False, 'extra_settings': {
                 'always_create_integration_branches': True}})
 
 
@@ -195,7 +214,7 @@ def run(ctx):
 def replay(ctx, case, acc):
     sc = Scratch()
     try:
-        viols, _ = replay_case(sc, case, monitors())
+        viols, _ = replay_case(sc, case, monitors(), inject=True)
         for msg, sig in viols:
             acc.violation(msg, case, sig)
     finally:
